@@ -79,10 +79,15 @@ def litPush (a : LSt) (bs : List Byte) : LSt :=
   | none => a
   | some l => { a with lit := some (bs.reverse ++ l) }
 
+/-- forget which bytes lie behind the cursor: done by every operation that may refill the buffer -/
+def forget (a : LSt) : LSt := { a with behind := none }
+
 /-- the state effect of `peek()` -/
-def peekEff (a : LSt) : LSt :=
+def peekEff0 (a : LSt) : LSt :=
   let a := if a.rest.isEmpty then a.fillE else a
-  { a with look := max a.look 1, behind := none }
+  { a with look := max a.look 1 }
+
+def peekEff (a : LSt) : LSt := a.forget.peekEff0
 
 def peek (a : LSt) : Nat × LSt :=
   let a := a.peekEff
@@ -90,13 +95,16 @@ def peek (a : LSt) : Nat × LSt :=
   | [] => (runeSelf, a)
   | b :: _ => (b.toNat, a)
 
-/-- the state effect of `peekTwo()` called with at least one byte buffered (or at the end) -/
-def peekTwoEff (a : LSt) : LSt :=
+/-- the state effect of `peekTwo()`; inside the protocol only when a byte is certainly buffered
+    (or nothing is left) -/
+def peekTwoEff0 (a : LSt) : LSt :=
   let a := { a with ok := a.ok && (a.look ≥ 1 || a.rest.isEmpty) }
   let a := match a.rest with
     | _ :: _ :: _ => a
     | _ => a.fillE
-  { a with look := max a.look 2, behind := none }
+  { a with look := max a.look 2 }
+
+def peekTwoEff (a : LSt) : LSt := a.forget.peekTwoEff0
 
 def peekTwo (a : LSt) : Nat × Nat × LSt :=
   let a := a.peekTwoEff
@@ -191,7 +199,7 @@ def runeStep (bq : Nat) (a : LSt) : Step :=
   match a.rest with
   | [] => .done (runeAtEOF a)
   | b :: _ =>
-    let a := { a with look := max a.look 1, behind := none }
+    let a := { a.forget with look := max a.look 1 }
     if b.toNat < 0x80 then runeAscii b bq a else .done (runeDecode a)
 
 def runeLoop : Nat → Nat → LSt → LSt
